@@ -7,7 +7,7 @@ CONSTANTS
   Offs <- EnvOffs
   NCat <- Cat
   MaxRec = 3
-  IdChoices = {1000, 7}
+  IdChoices = {1000, 0}
   Pops = {0, 1, 2}
   Alls = {TRUE, FALSE}
   Bests = {0, 1}
